@@ -53,8 +53,23 @@ class SpecSeq(object):
         step_h = [n >= 0, z3.Length(F(*(ps + [n]))) == n * self.elem_len,
                   F(*(ps + [n + 1])) == z3.Concat(F(*(ps + [n])), self.elem(*(ps + [n])))]
         step_g = z3.Length(F(*(ps + [n + 1]))) == (n + 1) * self.elem_len
-        return [('speclib/%s/len/base' % self.name, base_h, base_g),
-                ('speclib/%s/len/step' % self.name, step_h, step_g)]
+        out = [('speclib/%s/len/base' % self.name, base_h, base_g),
+               ('speclib/%s/len/step' % self.name, step_h, step_g)]
+        # nth lemma: for 0 <= k < n the k-th element of F(p,n) is elem(p,k).  Induction on n >= k+1.
+        k = z3.FreshConst(IntS, 'k')
+        L = self.elem_len
+        def nth(n_): return z3.SubSeq(F(*(ps + [n_])), k * L, z3.IntVal(L)) == self.elem(*(ps + [k]))
+        lenf = lambda n_: z3.Length(F(*(ps + [n_]))) == n_ * L
+        b_h = [k >= 0, lenf(k), F(*(ps + [k + 1])) == z3.Concat(F(*(ps + [k])), self.elem(*(ps + [k]))), z3.Length(self.elem(*(ps + [k]))) == L]
+        s_h = [k >= 0, n > k, lenf(n), nth(n), F(*(ps + [n + 1])) == z3.Concat(F(*(ps + [n])), self.elem(*(ps + [n])))]
+        out += [('speclib/%s/nth/base' % self.name, b_h, nth(k + 1)),
+                ('speclib/%s/nth/step' % self.name, s_h, nth(n + 1))]
+        return out
+
+    def nth_instance(self, ps, n, k):
+        """instance of the nth lemma (proved by the speclib obligations above)"""
+        L = self.elem_len
+        return z3.Implies(z3.And(k >= 0, k < n), z3.SubSeq(self.f(*(list(ps) + [n])), k * L, z3.IntVal(L)) == self.elem(*(list(ps) + [k])))
 
 
 def _walk(e, seen, out):
